@@ -34,6 +34,11 @@ def run(ctx):
   rule_bias(ctx)
   rule_pure(ctx)
   rule_pseudoavg(ctx)
+  rule_isqrt_small(ctx)
+  rule_sieve(ctx)
+  rule_linalg(ctx)
+  ctx.expect("R-C19-LINALG", 6, "back-substitution, solve_right, elimination step, exact division, sweeps, row moves")
+  ctx.expect("R-C19-SIEVE", 1, "Sieve")
   ctx.expect("R-C19-PSEUDOAVG", 1, "PseudoAverage")
   # "the product trees equal their definitions", "Fisher combination equals its exact definition" (shared with C03 / C13)
   from . import c03, c13
@@ -43,7 +48,7 @@ def run(ctx):
   ctx.expect("R-C19-FISHER", 4, "four cases")
   ctx.expect("R-C19-PURE", 40, "every function of the helper modules")
   ctx.expect("R-C19-BIAS", 2, "statistic + summand count")
-  ctx.expect("R-C19-HENSEL", 8, "two loops x (base, identity, exponent, reduction)")
+  ctx.expect("R-C19-HENSEL", 9, "two loops x (base, identity, exponent, reduction)")
   ctx.expect("R-C19-SQRT", 3, "roots, solvability, small k")
   ctx.expect("R-C19-DIVMOD", 2, "identity + rounding offset")
   ctx.expect("R-C19-ROOTS", 4, "three finders + candidate coverage")
@@ -749,3 +754,594 @@ def rule_pseudoavg(ctx):
 
 def ratfun_eq(x, y):
   return (x - y).is_zero()
+
+
+# ------------------------------------------------------------------ SIEVE (Sieve(n) = the primes below n)
+def rule_isqrt_small(ctx):
+  """InverseSqrt2exp for k < 3 (the Newton iteration needs k >= 3): exhaustive search over range(2**k), a returned exactly under a*a*n == 1 (mod 2^k), None otherwise."""
+  R = "R-C19-HENSEL"
+  repo = ctx.repo
+  f, w = walk(repo, NT, "InverseSqrt2exp")
+  n, k = P("param", f.params()[0]), P("param", f.params()[1])
+  Mk = sym.mk("pow", Poly.const(2), k)
+  fors = [i_ for i_ in w.loop_info.values() if isinstance(i_["node"], ast.For) and i_["visits"]]
+  probs = []
+  if len(fors) != 1 or not isinstance(fors[0]["visits"][0]["iter"], Poly) or fors[0]["visits"][0]["iter"] != sym.mk("range", Mk):
+    probs.append("no exhaustive loop over range(2**k)")
+  else:
+    info = fors[0]
+    vis = info["visits"][0]
+    a = as_poly(vis["k"])
+    if not any(fc[0] == "cmp" and fc[1] == "Lt" and as_poly(fc[2]) == k and as_poly(fc[3]).as_int() == 3 for fc in vis["head"].facts):
+      probs.append("the exhaustive branch is not the k < 3 case")
+    saw = False
+    for kind, val, s_, since, v_ in info["body_paths"]:
+      newf = s_.facts[len(vis["head"].facts):]
+      hit = [fc for fc in newf if fc[0] == "cmp" and fc[1] in ("Eq", "NotEq") and isinstance(fc[2], Poly) and fc[2].as_atom() is not None and fc[2].as_atom().kind == "mod"
+             and (as_poly(fc[2].as_atom().args[0]) - a * a * n).is_zero() and as_poly(fc[2].as_atom().args[1]) == Mk and as_poly(fc[3]).as_int() == 1]
+      if len(hit) != 1:
+        probs.append("a pass does not test a*a*n % 2**k == 1")
+        continue
+      if kind == "return":
+        saw = True
+        if hit[0][1] != "Eq" or not (isinstance(val, Poly) and val == a):
+          probs.append("the returned value is not the a that passed the test")
+      elif kind in ("fall", "continue"):
+        if hit[0][1] != "NotEq":
+          probs.append("the search goes on although the test succeeded")
+      else:
+        probs.append("the search is left by %s" % kind)
+    if not saw:
+      probs.append("no solution is ever returned")
+    after = [t_ for t_ in w.terminals if t_[0] == "return" and any(fc[0] == "cmp" and fc[1] == "Lt" and as_poly(fc[2]) == k and as_poly(fc[3]).as_int() == 3 for fc in t_[2].facts)
+             and not (isinstance(t_[1], Poly))]
+    if not any(isinstance(t_[1], Const) and t_[1].v is None for t_ in after):
+      probs.append("None is not returned when no a qualifies")
+  ctx.record(R, f.where, "k < 3: exhaustive search for a with a*a*n == 1 (mod 2^k)", not probs, "; ".join(sorted(set(probs))) or "first a in range(2^k) passing the congruence, else None")
+
+
+def rule_sieve(ctx):
+  """Sieve of Eratosthenes, decided on its structure: a table of n True flags; for every i from 2 up to at least isqrt(n) whose flag is still set, every
+  multiple j = i*i, i*i + i, ... below n is cleared (start anywhere in [2i, i*i]); the result lists the indices >= 2 whose flag is set.  Then a composite
+  m < n has a prime factor i <= isqrt(m) <= isqrt(n) with i*i <= m, so m is cleared; a prime is never a multiple j >= 2i of a smaller i."""
+  R = "R-C19-SIEVE"
+  repo = ctx.repo
+  f, w = walk(repo, NT, "Sieve")
+  n = P("param", f.params()[0])
+  probs = []
+  alloc = [e for e in w.events if e.kind == "assign" and isinstance(e.data["value"], Poly) and e.data["value"] == sym.mk("listrep", P("seq", Poly.const(1)), n)]
+  if not alloc:
+    probs.append("the flag table is not [True] * n")
+  fors = [i_ for i_ in w.loop_info.values() if isinstance(i_["node"], ast.For) and i_["visits"]]
+  outer = [i_ for i_ in fors if not any(i_["node"] in ast.walk(o["node"]) and o is not i_ for o in fors)]
+  inner = [i_ for i_ in fors if i_ not in outer]
+  if len(outer) != 1 or len(inner) != 1:
+    ctx.incomplete(R, f.where, "sieve of Eratosthenes", "expected one loop over the candidates and one over their multiples")
+    return
+  ov = outer[0]["visits"][0]
+  ra = ov["iter"].as_atom() if isinstance(ov["iter"], Poly) else None
+  ivar = None
+  if ra is None or ra.kind != "range" or len(ra.args) < 2:
+    probs.append("the candidates are not a range")
+  else:
+    start, stop = as_poly(ra.args[0]), as_poly(ra.args[1])
+    step = as_poly(ra.args[2]) if len(ra.args) == 3 else Poly.const(1)
+    ivar = start + as_poly(ov["k"]) * step
+    if start.as_int() != 2 or step.as_int() != 1:
+      probs.append("the candidates do not run over 2, 3, 4, ...")
+    if not ((stop - sym.mk("isqrt", n)).as_int() is not None and (stop - sym.mk("isqrt", n)).as_int() >= 1) and stop != n:
+      probs.append("the candidates stop at %r: every i <= isqrt(n) must be tried" % (stop,))
+  for iv in inner[0]["visits"]:
+    ia = iv["iter"].as_atom() if isinstance(iv["iter"], Poly) else None
+    if ia is None or ia.kind != "range" or len(ia.args) != 3 or ivar is None:
+      probs.append("the multiples are not range(start, n, i)")
+      continue
+    s0, s1, st = [as_poly(x) for x in ia.args]
+    if st != ivar:
+      probs.append("the multiples advance by %r, not by the candidate i" % (st,))
+    if s1 != n:
+      probs.append("the multiples stop at %r, not at n" % (s1,))
+    # start is a multiple of i in [2i, i*i]: i*i - start = c*i with 0 <= c <= i - 2
+    d = ivar * ivar - s0
+    if not (d.is_zero() or (d - ivar * (ivar - 2)).is_zero()):
+      probs.append("the first cleared multiple is %r (must be a multiple of i between 2i and i*i)" % (s0,))
+    jvar = s0 + as_poly(iv["k"]) * st
+    paths = [bp for bp in inner[0]["body_paths"] if bp[4] is iv]
+    if not paths or any(bp[0] != "fall" for bp in paths):
+      probs.append("the loop over the multiples is left early")
+    st_ = [e for e in w.events if e.kind == "store" and isinstance(e.data["value"], Const) and e.data["value"].v is False]
+    if not st_ or not all((as_poly(e.data["index"]) - jvar).is_zero() for e in st_):
+      probs.append("the cleared entry is not table[j]")
+  # the multiples are cleared for every candidate whose flag is set (clearing for all candidates is fine too)
+  inner_nodes = {id(x) for x in ast.walk(inner[0]["node"])}
+  for kind, val, s_, since, v_ in outer[0]["body_paths"]:
+    if kind not in ("fall", "continue"):
+      probs.append("the loop over the candidates is left early")
+      continue
+    entered = any(id(w.events[i_].node) in inner_nodes for i_ in s_.trace[since:] if w.events[i_].node is not None)
+    if not entered and ivar is not None:
+      th = ov["head"].env
+      newf = s_.facts[len(ov["head"].facts):]
+      okskip = any(fc[0] == "falsy" and isinstance(fc[1], Poly) and fc[1].as_atom() is not None and fc[1].as_atom().kind == "idx" and (as_poly(fc[1].as_atom().args[1]) - ivar).is_zero()
+                   for fc in newf)
+      if not okskip:
+        probs.append("a candidate's multiples are skipped although its flag is not known to be cleared")
+  rets = [t_ for t_ in w.terminals if t_[0] == "return"]
+  okr = False
+  for t_ in rets:
+    a_ = t_[1].as_atom() if isinstance(t_[1], Poly) else None
+    if a_ is not None and a_.kind == "slice" and as_poly(a_.args[1]).as_int() == 2 and repr(a_.args[2]) == "lit('None')" and "enumerate" in repr(a_.args[0]) and "truthy" in repr(a_.args[0]):
+      okr = True
+  if not okr:
+    probs.append("the result is not [i for i, flag in enumerate(table) if flag][2:]")
+  ctx.record(R, f.where, "sieve of Eratosthenes", not probs, "; ".join(sorted(set(probs))) or "candidates 2..isqrt(n), multiples from i*i in steps of i below n, indices >= 2 with the flag set")
+
+
+# ---------------------------------------------------------------------------------------------------------------- rational linear solver
+LA = "linalg_util"
+
+
+def _rel(fc):
+  """('cmp', op, l, r) -> (rel, l - r) with rel in ==, !=, <, <= (Gt / GtE are mirrored); None for other facts."""
+  if not (isinstance(fc, tuple) and len(fc) == 4 and fc[0] == "cmp" and isinstance(fc[2], (Poly, int)) and isinstance(fc[3], (Poly, int))):
+    return None
+  l, r = as_poly(fc[2]), as_poly(fc[3])
+  op = fc[1]
+  if op in ("Gt", "GtE"):
+    l, r = r, l
+    op = {"Gt": "Lt", "GtE": "LtE"}[op]
+  if op not in ("Eq", "NotEq", "Lt", "LtE"):
+    return None
+  return {"Eq": "==", "NotEq": "!=", "Lt": "<", "LtE": "<="}[op], l - r
+
+
+def has_rel(facts, rel, d):
+  """Is `d rel 0` among the facts (up to the sign of d for == and !=, and x < y  <=>  x + 1 <= y over the integers)?"""
+  for fc in facts:
+    x = _rel(fc)
+    if x is None:
+      continue
+    r_, e = x
+    if r_ == rel and (e - d).is_zero():
+      return True
+    if rel in ("==", "!=") and r_ == rel and (e + d).is_zero():
+      return True
+    if rel == "<" and r_ == "<=" and (e - d - 1).is_zero():
+      return True
+    if rel == "<=" and r_ == "<" and (e - d + 1).is_zero():
+      return True
+  return False
+
+
+def _root(x, names):
+  """The parameter (by name) a list value derives from through element stores / in-place mutations, or None."""
+  seen = 0
+  while seen < 50:
+    seen += 1
+    a = x.as_atom() if isinstance(x, Poly) else (x if isinstance(x, Atom) else None)
+    if a is None:
+      return None
+    if a.kind in ("upd", "mut"):
+      x = a.args[0]
+      continue
+    if a.kind == "param":
+      return a.args[0] if a.args[0] in names else None
+    if a.kind == "sym":
+      nm = str(a.args[0]).split("#")[0]
+      return nm if nm in names else None
+    return None
+  return None
+
+
+def _entry(x):
+  """(matrix value, row, col) of idx(idx(A, row), col), else None."""
+  a = x.as_atom() if isinstance(x, Poly) else (x if isinstance(x, Atom) else None)
+  if a is None or a.kind != "idx":
+    return None
+  r = a.args[0].as_atom() if isinstance(a.args[0], Poly) else (a.args[0] if isinstance(a.args[0], Atom) else None)
+  if r is None or r.kind != "idx":
+    return None
+  return as_poly(r.args[0]), as_poly(r.args[1]), as_poly(a.args[1])
+
+
+def _enclosing_for(w, node):
+  """loop_info of the innermost `for` containing node."""
+  best = None
+  for li in w.loop_info.values():
+    n = li["node"]
+    if isinstance(n, ast.For) and any(x is node for x in ast.walk(n)):
+      if best is None or any(x is n for x in ast.walk(best["node"])):
+        best = li
+  return best
+
+
+def _range_of(visit):
+  ra = visit["iter"].as_atom() if isinstance(visit["iter"], Poly) else None
+  if ra is None or ra.kind != "range":
+    return None
+  args = [as_poly(x) for x in ra.args]
+  if len(args) == 1:
+    return Poly.const(0), args[0], Poly.const(1)
+  if len(args) == 2:
+    return args[0], args[1], Poly.const(1)
+  return args[0], args[1], args[2]
+
+
+def rule_linalg(ctx):
+  """'The rational linear solver returns only vectors that satisfy the original consistent system', decided on the three functions it consists of:
+  back-substitution solves row i exactly (a[i][i] x_i + sum_{j>i} a[i][j] x_j = b[i], rows taken bottom-up so that every x_j used is final, a zero pivot gives
+  None); solve_right eliminates on the augmented system (a | b), answers only at full column rank and hands the first `rank` rows of both to the
+  back-substitution; the elimination applies to b exactly the row operation it applies to a (same pivot, same multiplier, same divisor, same row moves)."""
+  R = "R-C19-LINALG"
+  repo = ctx.repo
+  # ---- back-substitution
+  f, w = walk(repo, LA, "upper_triangular_solve")
+  pa, pb = f.params()[0], f.params()[1]
+  A, B = P("param", pa), P("param", pb)
+  sizes = [sym.mk("len", A), sym.mk("len", sym.mk("idx", A, Poly.const(0))), sym.mk("len", B)]
+  probs = []
+  sts = [e for e in w.events if e.kind == "store"]
+  if not sts:
+    ctx.incomplete(R, f.where, "back-substitution", "no element store found")
+  else:
+    for e in sts:
+      I = as_poly(e.data["index"])
+      va = e.data["value"].as_atom() if isinstance(e.data["value"], Poly) else None
+      if va is None or va.kind != "extcall" or len(va.args) not in (3, 4) or "mpq" not in repr(va.args[0]):
+        ctx.incomplete(R, f.where, "back-substitution", "the solution entry is not gmpy.mpq(numerator, denominator): %r" % (e.data["value"],))
+        return
+      N, D = as_poly(va.args[1]), as_poly(va.args[2])
+      if not (D - sym.mk("idx", sym.mk("idx", A, I), I)).is_zero():
+        probs.append("x[i] is divided by %r, not by the pivot a[i][i]" % (D,))
+      bvs = [x for x in N.all_atoms() if x.kind == "bv"]
+      okn = False
+      for bv in bvs:
+        for hi in sizes:
+          J = Poly.atom(bv) + I + 1
+          elem = sym.mk("idx", sym.mk("idx", A, I), J) * sym.mk("idx", as_poly(e.data["base"]), J)
+          exp = sym.mk("idx", B, I) - sym.mk("sum", Poly.atom(Atom("map", elem, bv, sym.mk("range", I + 1, hi))))
+          if (N - exp).is_zero():
+            okn = True
+      if not okn:
+        # the same sum accumulated by a loop: acc = 0; for j in range(i+1, n): acc += a[i][j] * x[j]
+        rest = sym.mk("idx", B, I) - N
+        ra_ = rest.as_atom()
+        if ra_ is not None and ra_.kind == "sym":
+          for li_ in w.loop_info.values():
+            for v_ in li_["visits"]:
+              nm = [n_ for n_, x_ in (v_.get("after_env") or {}).items() if isinstance(x_, Poly) and x_ == rest]
+              rg_ = _range_of(v_) if isinstance(v_.get("iter"), Poly) else None
+              if not nm or rg_ is None:
+                continue
+              init = v_["pre_env"].get(nm[0])
+              headv = v_["head"].env.get(nm[0])
+              paths = [bp for bp in li_["body_paths"] if bp[4] is v_]
+              J = rg_[0] + as_poly(v_["k"]) * rg_[2]
+              elem = sym.mk("idx", sym.mk("idx", A, I), J) * sym.mk("idx", as_poly(e.data["base"]), J)
+              if (isinstance(init, (Poly, int)) and as_poly(init).is_zero() and isinstance(headv, Poly) and paths and all(bp[0] == "fall" for bp in paths)
+                  and all(isinstance(bp[2].env.get(nm[0]), Poly) and (bp[2].env[nm[0]] - headv - elem).is_zero() for bp in paths)
+                  and (rg_[0] - (I + 1)).is_zero() and rg_[2].as_int() == 1 and any((rg_[1] - s_).is_zero() for s_ in sizes)):
+                okn = True
+      if not bvs and (N - sym.mk("idx", B, I)).is_zero():
+        probs.append("the numerator ignores the already solved unknowns")
+      elif not okn:
+        probs.append("the numerator is %r, not b[i] - sum(a[i][j] * x[j] for j in i+1 .. n-1)" % (N,))
+      if not has_rel(e.state.facts, "!=", D):
+        probs.append("x[i] is computed although the pivot is not known to be non-zero")
+      li = _enclosing_for(w, e.node)
+      rg = _range_of(li["visits"][0]) if li and li["visits"] else None
+      if rg is None:
+        ctx.incomplete(R, f.where, "back-substitution", "the rows are not taken from a range")
+        return
+      k = as_poly(li["visits"][0]["k"])
+      start, stop, step = rg
+      if not ((I - (start + k * step)).is_zero() and step.as_int() == -1 and stop.as_int() == -1 and any((start - (s_ - 1)).is_zero() for s_ in sizes)):
+        probs.append("the rows are not taken bottom-up from n-1 down to 0 (iteration %r)" % (li["visits"][0]["iter"],))
+      # the result is the list the entries are stored into
+      v0 = li["visits"][0]
+      var = [n_ for n_, v_ in v0["head"].env.items() if isinstance(v_, Poly) and v_ == as_poly(e.data["base"])]
+      rets = [t_ for t_ in w.terminals if t_[0] == "return" and not (isinstance(t_[1], Const) and t_[1].v is None)]
+      if not rets or not all(any(isinstance(t_[2].env.get(n_), Poly) and t_[1] == t_[2].env.get(n_) for n_ in var) for t_ in rets):
+        probs.append("the value returned is not the list of solved unknowns")
+    nones = [e for e in w.events if e.kind == "return" and isinstance(e.data["value"], Const) and e.data["value"].v is None and not e.data.get("implicit")]
+    for e in nones:
+      zero = [fc for fc in e.state.facts if _rel(fc) and _rel(fc)[0] == "==" and _entry(_rel(fc)[1]) is not None]
+      if not zero:
+        probs.append("None is returned on a path without a zero pivot")
+    ctx.record(R, f.where, "back-substitution", not probs, "; ".join(sorted(set(probs))) or "x[i] = (b[i] - sum_{j>i} a[i][j] x[j]) / a[i][i] for i = n-1 .. 0, None at a zero pivot")
+  # ---- solve_right
+  f, w = walk(repo, LA, "solve_right")
+  pa, pb = f.params()[0], f.params()[1]
+  A, B = P("param", pa), P("param", pb)
+  nr, nc, nb = sym.mk("len", A), sym.mk("len", sym.mk("idx", A, Poly.const(0))), sym.mk("len", B)
+  probs = []
+  ech = [e for e in w.events if e.kind == "call" and e.data["name"] == "repo:%s:echelon_form" % LA]
+  keys = {repr(e.data["value"]) for e in ech}
+  if len(keys) != 1:
+    ctx.incomplete(R, f.where, "solve_right", "expected exactly one elimination call")
+  else:
+    e0 = ech[0]
+    args = list(e0.data["args"]) + [e0.data["kwargs"].get(k_) for k_ in ("b",) if k_ in e0.data["kwargs"]]
+    if len(args) != 2 or not (isinstance(args[0], Poly) and args[0] == A and isinstance(args[1], Poly) and args[1] == B):
+      probs.append("the elimination does not run on the augmented system (a, b): arguments %r" % (args,))
+    rank = as_poly(e0.data["value"])
+    for e in w.events:
+      if e.kind == "raise":
+        fs = e.state.facts
+        if not (has_rel(fs, "!=", nr - nb) or has_rel(fs, "<", nr - nc)):
+          probs.append("line %d rejects a system that is neither mis-sized (len(a) != len(b)) nor under-determined (rows < columns)" % e.node.lineno)
+    for t_ in w.terminals:
+      if t_[0] != "return":
+        continue
+      fs = t_[2].facts
+      if not has_rel(fs, "==", nr - nb):
+        probs.append("an answer is given although len(a) == len(b) is not established")
+      if isinstance(t_[1], Const) and t_[1].v is None:
+        if not has_rel(fs, "!=", rank - nc):
+          probs.append("None is returned although the rank is not known to differ from the number of columns")
+        continue
+      if not has_rel(fs, "==", rank - nc):
+        probs.append("a solution is returned although full column rank is not established")
+      ca = t_[1].as_atom() if isinstance(t_[1], Poly) else None
+      okc = False
+      if ca is not None and ca.kind == "call" and repr(ca.args[0]) == "lit('%s:upper_triangular_solve')" % LA and len(ca.args) == 3:
+        okc = True
+        for arg, par in ((ca.args[1], A), (ca.args[2], B)):
+          sa = arg.as_atom() if isinstance(arg, Poly) else (arg if isinstance(arg, Atom) else None)
+          if sa is None or sa.kind != "slice" or as_poly(sa.args[0]) != par:
+            okc = False
+            continue
+          lo, hi, stp = sa.args[1], sa.args[2], sa.args[3]
+          if not (repr(lo) in ("lit('None')", "0")) or repr(stp) not in ("lit('None')", "1"):
+            okc = False
+          if not (isinstance(hi, (Poly, int)) and ((as_poly(hi) - rank).is_zero() or (as_poly(hi) - nc).is_zero())):
+            okc = False
+      if not okc:
+        probs.append("the result is not the back-substitution on the first `rank` rows of a and b: %r" % (t_[1],))
+    ctx.record(R, f.where, "solve_right", not probs, "; ".join(sorted(set(probs))) or "elimination on (a, b); None unless rank == columns; back-substitution on a[:rank], b[:rank]")
+  # ---- elimination: b follows a
+  f, w = walk(repo, LA, "echelon_form")
+  pa, pb = f.params()[0], f.params()[1]
+  names = {pa, pb}
+  elim, divs, zero = [], [], []
+  bst = []
+  for e in w.events:
+    if e.kind != "store":
+      continue
+    base = as_poly(e.data["base"])
+    ba = base.as_atom()
+    v = e.data["value"]
+    if ba is not None and ba.kind == "idx" and _root(ba.args[0], names) == pa:
+      J, K = as_poly(ba.args[1]), as_poly(e.data["index"])
+      if isinstance(v, (Poly, int)) and as_poly(v).is_zero():
+        zero.append((e, J, K))
+      elif isinstance(v, Poly) and v.as_atom() is not None and v.as_atom().kind == "fdiv":
+        divs.append((e, J, K, v.as_atom()))
+      elif isinstance(v, Poly):
+        elim.append((e, J, K, v))
+      else:
+        ctx.incomplete(R, f.where, "elimination", "unmodelled store into a row of a: %r" % (v,))
+        return
+    elif _root(base, names) == pb:
+      bst.append((e, as_poly(e.data["index"]), v))
+    elif _root(base, names) == pa:
+      ctx.incomplete(R, f.where, "elimination", "a whole row of a is replaced (line %d)" % e.node.lineno)
+      return
+  if not elim or not divs:
+    ctx.incomplete(R, f.where, "elimination", "elimination step or exact division not found")
+    return
+  probs, probs_d = [], []
+  Is = set()
+  for e, J, K, v in elim:
+    rows = set()
+    for at in v.atoms():
+      en = _entry(at)
+      if en is not None and (en[2] - K).is_zero() and _root(en[0], names) == pa:
+        rows.add(en[1])
+    piv = [r_ for r_ in rows if not (r_ - J).is_zero()]
+    if len(piv) != 1:
+      probs.append("line %d: the new a[j][k] is not a combination of row j and one pivot row: %r" % (e.node.lineno, v))
+      continue
+    I = piv[0]
+    Is.add(I)
+    Asym = None
+    for at in v.atoms():
+      en = _entry(at)
+      if en is not None:
+        Asym = en[0]
+    def a_(r_, c_):
+      return sym.mk("idx", sym.mk("idx", Asym, r_), c_)
+    if not (v - (a_(I, I) * a_(J, K) - a_(J, I) * a_(I, K))).is_zero():
+      probs.append("line %d: the elimination step is %r, not a[i][i]*a[j][k] - a[j][i]*a[i][k]" % (e.node.lineno, v))
+    li = _enclosing_for(w, e.node)
+    rg = _range_of(li["visits"][0]) if li and li["visits"] else None
+    if rg is None or not ((rg[0] - (I + 1)).is_zero() and rg[2].as_int() == 1 and (rg[1] - sym.mk("len", sym.mk("idx", P("param", pa), Poly.const(0)))).is_zero()):
+      probs.append("line %d: the eliminated columns are not i+1 .. ncols-1" % e.node.lineno)
+    if not any((zJ - J).is_zero() and (zK - I).is_zero() for _, zJ, zK in zero):
+      probs.append("line %d: the entry below the pivot, a[j][i], is not cleared" % e.node.lineno)
+    # the same row operation on b
+    mate = [(eb, Jb, vb) for eb, Jb, vb in bst if isinstance(vb, Poly) and not (vb.as_atom() is not None and vb.as_atom().kind == "fdiv")]
+    okb = False
+    for eb, Jb, vb in mate:
+      Bsym = None
+      for at in vb.atoms():
+        if at.kind == "idx" and _root(at.args[0], names) == pb:
+          Bsym = as_poly(at.args[0])
+      if Bsym is None:
+        continue
+      exp = a_(I, I) * sym.mk("idx", Bsym, J) - a_(J, I) * sym.mk("idx", Bsym, I)
+      if (Jb - J).is_zero() and (vb - exp).is_zero():
+        okb = True
+    if not okb:
+      probs.append("line %d: b does not get the same row operation (b[j] = a[i][i]*b[j] - a[j][i]*b[i])" % e.node.lineno)
+  for e, J, K, fa in divs:
+    num, den = as_poly(fa.args[0]), as_poly(fa.args[1])
+    en, dn = _entry(num), _entry(den)
+    if en is None or not ((en[1] - J).is_zero() and (en[2] - K).is_zero()):
+      probs_d.append("line %d: the divided entry is not the stored one" % e.node.lineno)
+    okd = dn is not None and _root(dn[0], names) == pa and (dn[1] - dn[2]).is_zero() and any((dn[1] - (I - 1)).is_zero() for I in Is)
+    if not okd:
+      probs_d.append("line %d: the divisor is %r, not the previous pivot a[i-1][i-1] (fraction-free elimination divides exactly only by it)" % (e.node.lineno, den))
+    elif not has_rel(e.state.facts, "<=", Poly.const(1) - (dn[1] + 1)):
+      probs_d.append("line %d: the division by the previous pivot is not restricted to i >= 1" % e.node.lineno)
+    li = _enclosing_for(w, e.node)
+    rg = _range_of(li["visits"][0]) if li and li["visits"] else None
+    if rg is None or not (any((rg[0] - (I + 1)).is_zero() for I in Is) and rg[2].as_int() == 1 and (rg[1] - sym.mk("len", sym.mk("idx", P("param", pa), Poly.const(0)))).is_zero()):
+      probs_d.append("line %d: the divided columns are not i+1 .. ncols-1" % e.node.lineno)
+    # rows i and above are final (row i is the pivot row of this step): only rows from i+1 on may be divided
+    rowfor = [li_ for li_ in w.loop_info.values() if isinstance(li_["node"], ast.For) and li_["visits"] and any(x is e.node for x in ast.walk(li_["node"]))
+              and any(at.kind == "sym" and as_poly(li_["visits"][0]["k"]).as_atom() == at for at in J.all_atoms())]
+    rgs = [_range_of(li_["visits"][0]) for li_ in rowfor]
+    if not rgs or any(r_ is None for r_ in rgs):
+      probs_d.append("line %d: the divided rows are not taken from a range" % e.node.lineno)
+    else:
+      for r_ in rgs:
+        off = [(r_[0] - (I + 1)).as_int() for I in Is]
+        if not any(o_ is not None and o_ >= 0 for o_ in off) or r_[2].as_int() != 1:
+          probs_d.append("line %d: rows up to the pivot row are divided again (rows start at %r; only rows i+1.. are still being reduced)" % (e.node.lineno, r_[0]))
+    okb = False
+    for eb, Jb, vb in bst:
+      fb = vb.as_atom() if isinstance(vb, Poly) else None
+      if fb is None or fb.kind != "fdiv":
+        continue
+      nb_ = as_poly(fb.args[0]).as_atom()
+      if nb_ is not None and nb_.kind == "idx" and _root(nb_.args[0], names) == pb and (as_poly(nb_.args[1]) - J).is_zero() and (Jb - J).is_zero() and (as_poly(fb.args[1]) - den).is_zero():
+        okb = True
+    if not okb:
+      probs_d.append("line %d: b[j] is not divided by the same previous pivot" % e.node.lineno)
+  # every store into b is one of the two mirrored operations
+  for eb, Jb, vb in bst:
+    fb = vb.as_atom() if isinstance(vb, Poly) else None
+    if fb is not None and fb.kind == "fdiv":
+      if not any((as_poly(fb.args[1]) - as_poly(fa.args[1])).is_zero() for _, _, _, fa in divs):
+        probs_d.append("line %d: b is divided by something a is not divided by" % eb.node.lineno)
+  # reads are modelled against the matrix as it was at the loop head: an entry must not be read after the same iteration has overwritten it
+  for li_ in w.loop_info.values():
+    for kind_, val_, st_, since_, vis_ in li_["body_paths"]:
+      written = []
+      for i_ in st_.trace[since_:]:
+        ev_ = w.events[i_]
+        if ev_.kind != "store":
+          continue
+        val = ev_.data["value"]
+        if isinstance(val, Poly):
+          for at in val.all_atoms():
+            en = _entry(at)
+            if en is not None and _root(en[0], names) == pa:
+              for (r_, c_, ln_) in written:
+                if (en[1] - r_).is_zero() and (en[2] - c_).is_zero() and ln_ != ev_.node.lineno:
+                  probs.append("line %d reads a[%r][%r] after line %d of the same iteration has overwritten it" % (ev_.node.lineno, r_, c_, ln_))
+        ba_ = as_poly(ev_.data["base"]).as_atom()
+        if ba_ is not None and ba_.kind == "idx" and _root(ba_.args[0], names) == pa:
+          written.append((as_poly(ba_.args[1]), as_poly(ev_.data["index"]), ev_.node.lineno))
+  ctx.record(R, f.where, "elimination step on (a | b)", not probs, "; ".join(sorted(set(probs))) or "row_j := a[i][i]*row_j - a[j][i]*row_i on a (columns i+1..) and on b, a[j][i] cleared")
+  ctx.record(R, f.where, "exact division on (a | b)", not probs_d, "; ".join(sorted(set(probs_d))) or "rows below the pivot divided by the previous pivot a[i-1][i-1], a and b alike, for i >= 1")
+  # ---- sweeps: every row below the pivot, every pivot column
+  def whiles_around(node):
+    out = [li for li in w.loop_info.values() if isinstance(li["node"], ast.While) and any(x is node for x in ast.walk(li["node"]))]
+    out.sort(key=lambda li: sum(1 for _ in ast.walk(li["node"])))
+    return out
+  e0, J0, K0, v0_ = elim[0]
+  ws = whiles_around(e0.node)
+  probs_s = []
+  if len(ws) < 2 or len(Is) != 1 or not ws[0]["visits"] or not ws[1]["visits"]:
+    ctx.incomplete(R, f.where, "row and pivot sweeps", "expected the elimination step inside a loop over the rows inside a loop over the pivots")
+    return
+  I0 = next(iter(Is))
+  rowl, pivl = ws[0], ws[1]
+  rv = rowl["visits"][0]
+  c = w.cond(rowl["node"].test, rv["head"])
+  x = _rel(c) if isinstance(c, tuple) and c and c[0] == "cmp" else None
+  if x is None or x[0] != "<" or not (x[1].deep_subst(J0.as_atom(), Poly.const(0)) + J0 - x[1]).is_zero() or J0.as_atom() is None:
+    ctx.incomplete(R, f.where, "row and pivot sweeps", "the loop over the rows is not `while j < bound`: %r" % (c,))
+    return
+  Nb = J0 - x[1]
+  jn = [n_ for n_, v_ in rv["head"].env.items() if isinstance(v_, Poly) and v_ == J0]
+  nn = [n_ for n_, v_ in rv["head"].env.items() if isinstance(v_, Poly) and v_ == Nb]
+  if not jn or not nn:
+    ctx.incomplete(R, f.where, "row and pivot sweeps", "row index / row bound are not loop variables")
+    return
+  if not any(isinstance(rv["pre_env"].get(n_), (Poly, int)) and (as_poly(rv["pre_env"][n_]) - (I0 + 1)).is_zero() for n_ in jn):
+    probs_s.append("the rows swept start at %r, not at i+1: a[i+1][i] stays non-zero and back-substitution ignores it" % (rv["pre_env"].get(jn[0]),))
+  for kind, val, st_, since, vis in rowl["body_paths"]:
+    if vis is not rv:
+      continue
+    if kind not in ("fall", "continue"):
+      probs_s.append("the loop over the rows is left early (%s)" % kind)
+      continue
+    j2, n2 = st_.env.get(jn[0]), st_.env.get(nn[0])
+    mv = []
+    for i_ in st_.trace[since:]:
+      ev_ = w.events[i_]
+      if ev_.kind == "mutate" and isinstance(ev_.data["recv"], (Poly, Atom)) and _root(ev_.data["recv"], names) == pa and ev_.data["method"] == "insert":
+        sa = ev_.data["args"][1].as_atom() if isinstance(ev_.data["args"][1], Poly) else None
+        mv.append((as_poly(sa.args[2]) if sa is not None and sa.kind == "mcall" and len(sa.args) > 2 else None, as_poly(ev_.data["args"][0])))
+    if not isinstance(j2, (Poly, int)) or not isinstance(n2, (Poly, int)):
+      probs_s.append("row index / bound not tracked")
+      continue
+    j2, n2 = as_poly(j2), as_poly(n2)
+    keep = (j2 - J0 - 1).is_zero() and (n2 - Nb).is_zero() and not mv
+    move = (j2 - J0).is_zero() and (n2 - Nb + 1).is_zero() and len(mv) == 1 and mv[0][0] is not None and (mv[0][0] - J0).is_zero() and (mv[0][1] - Nb).is_zero()
+    if not (keep or move):
+      probs_s.append("an iteration over the rows neither advances to the next row (j+1, same bound) nor moves row j to position `bound` and shrinks the bound: j -> %r, bound -> %r, moves %r"
+                     % (j2, n2, mv))
+  pv = pivl["visits"][0]
+  c = w.cond(pivl["node"].test, pv["head"])
+  x = _rel(c) if isinstance(c, tuple) and c and c[0] == "cmp" else None
+  A0 = P("param", pa)
+  l1, l2 = sym.mk("len", A0), sym.mk("len", sym.mk("idx", A0, Poly.const(0)))
+  nmin = [sym.mk("min", l1, l2), sym.mk("min", l2, l1)]
+  if x is None or x[0] != "<" or not any((x[1] - (I0 - m_ + 1)).is_zero() for m_ in nmin):
+    probs_s.append("the pivots are not swept while i < min(rows, columns) - 1: %r" % (c,))
+  inn = [n_ for n_, v_ in pv["head"].env.items() if isinstance(v_, Poly) and v_ == I0]
+  if not inn:
+    probs_s.append("the pivot index is not a loop variable")
+  else:
+    if not any(isinstance(pv["pre_env"].get(n_), (Poly, int)) and as_poly(pv["pre_env"][n_]).is_zero() for n_ in inn):
+      probs_s.append("the first pivot is not column 0")
+    for kind, val, st_, since, vis in pivl["body_paths"]:
+      if vis is not pv:
+        continue
+      i2 = st_.env.get(inn[0])
+      if kind not in ("fall", "continue") or not isinstance(i2, (Poly, int)) or not (as_poly(i2) - I0 - 1).is_zero():
+        probs_s.append("an iteration over the pivots does not advance to the next column (i -> %r, %s)" % (i2, kind))
+  ctx.record(R, f.where, "row and pivot sweeps", not probs_s, "; ".join(sorted(set(probs_s))) or
+             "pivots i = 0 .. min(rows, cols) - 2; rows j = i+1 .. bound-1, each either kept (j+1) or moved to the bottom (bound-1)")
+  # ---- row moves
+  moves = {pa: set(), pb: set()}
+  loose = []
+  for e in w.events:
+    if e.kind != "mutate":
+      continue
+    rt = _root(as_poly(e.data["recv"]) if isinstance(e.data["recv"], (Poly, Atom)) else None, names) if isinstance(e.data["recv"], (Poly, Atom)) else None
+    if rt is None:
+      continue
+    if e.data["method"] == "insert" and len(e.data["args"]) == 2:
+      src = e.data["args"][1]
+      sa = src.as_atom() if isinstance(src, Poly) else None
+      if sa is not None and sa.kind == "mcall" and repr(sa.args[1]) == "lit('pop')" and _root(sa.args[0], names) == rt:
+        moves[rt].add((repr(as_poly(sa.args[2])), repr(as_poly(e.data["args"][0]))))
+      else:
+        loose.append(e)
+    elif e.data["method"] == "pop":
+      pass          # counted through the insert that consumes it
+    else:
+      loose.append(e)
+  pops = {pa: set(), pb: set()}
+  for e in w.events:
+    if e.kind == "mutate" and e.data["method"] == "pop" and isinstance(e.data["recv"], (Poly, Atom)):
+      rt = _root(e.data["recv"], names)
+      if rt is not None:
+        pops[rt].add(repr(as_poly(e.data["args"][0])) if e.data["args"] else "last")
+  probs = []
+  if loose:
+    ctx.incomplete(R, f.where, "row moves on (a | b)", "unmodelled in-place change of a or b at line %d" % loose[0].node.lineno)
+    return
+  if not moves[pa]:
+    ctx.incomplete(R, f.where, "row moves on (a | b)", "no row move found (zero pivots and dependent rows are moved to the bottom)")
+    return
+  if moves[pa] != moves[pb]:
+    probs.append("rows of a are moved (from, to) %s but entries of b %s" % (sorted(moves[pa]), sorted(moves[pb])))
+  if pops[pa] != {m[0] for m in moves[pa]} or pops[pb] != {m[0] for m in moves[pb]}:
+    probs.append("a row is removed without being re-inserted")
+  ctx.record(R, f.where, "row moves on (a | b)", not probs, "; ".join(probs) or "every a.insert(pos, a.pop(r)) has its b.insert(pos, b.pop(r)): %d distinct moves" % len(moves[pa]))
